@@ -30,7 +30,7 @@ func init() {
 
 func runC18(c *Ctx) {
 	p := c.Progs["mod"]
-	c.Rule("C18.L", "liveness gate", 10)
+	c.Rule("C18.L", "liveness gate", 11)
 	c.Rule("C18.F", "shared fallback only when the user has no match", 3)
 	c.Rule("C18.N", "lookup by the request path; 404 when it fails", 2)
 	c.Rule("C18.S", "shape of the most-specific-prefix selection", 7)
@@ -161,6 +161,22 @@ func runC18(c *Ctx) {
 		}
 	}
 	// the tracker is refreshed by the agent's list call
+	// the list call doubles as the record "the agent polled": only the agent-facing pending
+	// endpoint may make it (a list call on the end-user path — for a queue-length check, say —
+	// lets user traffic keep a backend live whose agent is gone)
+	{
+		stray := ""
+		n := 0
+		for _, fn := range p.FuncsIn("app") {
+			for _, call := range Calls(fn, storeIface+".ListPendingRequests") {
+				n++
+				if FuncName(Owner(call)) != "app.waitForNextRequests" {
+					stray = FuncName(Owner(call)) + " at " + p.Pos(call.Pos())
+				}
+			}
+		}
+		c.Check("C18.L", "seen:recorded-by-the-agents-poll-only", p, 0, stray == "" && n > 0, "Store.ListPendingRequests is called by the agent-facing wait loop only", "Store.ListPendingRequests is also called by "+stray+": the store records every list call as 'the agent polled', so that caller keeps the backend inside the liveness window without any agent")
+	}
 	// the poll records the backend as seen before it returns, under the caller's own context
 	if f := c.need(p, "C18.L", "app/store.(*persistentStore).ListPendingRequests"); f != nil {
 		var site ssa.Instruction
